@@ -13,7 +13,9 @@ def cmp_doc(i, m):
     iv, mv = kv(i), kv(m)
     if iv["build"] != mv["build"]:
         return False
-    if mv.get("reorder") == "f":          # the model must satisfy its own theorem on every case
+    # the model must satisfy its own theorem on every case within the theorem's hypothesis (closed schema,
+    # or none): on a schema that is not closed from_ast drops fields without recording an error
+    if mv.get("reorder") == "f" and mv.get("closed") != "f":
         return False
     if iv["valid"] != "-" and mv.get("closed") != "t":   # hypothesis of the theorem: valid schemas are closed
         return False
@@ -50,6 +52,16 @@ def run(ctx):
     # ---- documents
     n_s, per = (40, 30) if quick else (400, 60)
     entries, pairs = U.gen_pairs(ctx, impl, n_s, per, [0.0, 0.0, 0.0, 0.0, 0.05, 0.15], broken_share=0.05, schemaless_share=0.1)
+    # schemas that are not closed (undefined root / field types): fields are dropped without a build error,
+    # the left-inverse theorem does not apply and the comparison is of the printed partial document only
+    for stext, dtext in [
+        ("type Query { a: Int, m: Missing, q: Query }\nextend schema { mutation: Nowhere }",
+         "mutation M { a }\nquery Q { a m { x } q { m { y } a } }\n"),
+        ("type Query { a: Int, m: [Missing!] }", "{ m { x } a ... on Query { m { y } } }\n"),
+    ]:
+        sc = G.Sch()
+        sc.text = stext
+        pairs.append((U.schema_terms(impl, [sc])[0], dtext))
     cases, dropped = U.make_cases(impl, pairs)
     rows = ctx.correspond(impl, model, "xroundtrip", cases, describe=U.describe_case, compare=cmp_doc,
                           nontrivial=lambda c, o: "valid=t" in o)
@@ -57,6 +69,7 @@ def run(ctx):
     fam["documents_with_syntax_errors_dropped"] = dropped
     fam["valid_documents_round_tripped_under_6_configurations"] = sum(1 for _, i, _ in rows if " valid=t " in i)
     fam["invalid_or_schemaless"] = sum(1 for _, i, _ in rows if " valid=t " not in i)
+    fam["schema_not_closed_field_dropped_silently"] = sum(1 for _, _, m in rows if "reorder=f" in m and "closed=f" in m)
     fam["printed_partial_document_unparseable"] = sum(1 for _, i, _ in rows if "ast=unparseable" in i)
     for c, i, m in rows[:: max(1, len(rows) // 2)]:
         ctx.sample({"family": "xroundtrip", "case": U.describe_case(c), "impl": i[:400], "model": m[:400]}, limit=2)
